@@ -167,23 +167,29 @@ theorem paused_no_object_writes (cfg : Cfg) (rm : Remotes) (name : String) (s : 
 /-- the pass ends with exactly one status update carrying `finishMem` of the derived status. -/
 theorem finish_event (s : Sys) (m : OSet) (res : Res) :
     ∃ r, (finish s m res).1.setEvents = s.setEvents ++
-      [.statusUpdate (finishMem m).name r (finishMem m).revision (finishMem m).conds (finishMem m).controllerOf] := by
+      [.statusUpdate (finishMem s.w m).name r (finishMem s.w m).revision (finishMem s.w m).conds (finishMem s.w m).controllerOf] := by
   simp only [finish, Pko.Lemmas.ObjectSet.afterStatus_fst]
-  exact Pko.Lemmas.ObjectSet.updateStatus_setEvents s (finishMem m)
+  exact Pko.Lemmas.ObjectSet.updateStatus_setEvents s (finishMem s.w m)
 
-/-- **paused_still_reports**: the status written at the end of a paused pass carries Paused=True
-and an Available condition derived from the probes of THIS pass (True iff no phase failed). -/
-theorem paused_still_reports (mem : OSet) (co : List CRef) (failing : Option String)
-    (hpaused : mem.lifecycle = .paused) :
-    let final := finishMem (deriveStatus mem co failing)
+/-- **paused_still_reports**: the status written at the end of a paused pass (no delegated
+phases — with delegated phases Paused=True additionally waits for every phase object to confirm,
+see C15) carries Paused=True and an Available condition derived from the probes of THIS pass
+(True iff no phase failed). -/
+theorem paused_still_reports (w : World) (mem : OSet) (co : List CRef) (failing : Option String)
+    (hpaused : mem.lifecycle = .paused) (hnr : mem.remotePhases = []) :
+    let final := finishMem w (deriveStatus mem co failing)
     condTrue final.conds "Paused" = true ∧
     (condTrue final.conds "Available" = true ↔ failing = none) ∧ final.controllerOf = co := by
   have hlife : (deriveStatus mem co failing).lifecycle = .paused := by
     rw [Pko.Lemmas.ObjectSet.deriveStatus_lifecycle]; exact hpaused
-  simp only [finishMem, hlife, ↓reduceIte]
-  refine ⟨Pko.Lemmas.ObjectSet.condTrue_setCond_true _ _ _ _ _, ?_, Pko.Lemmas.ObjectSet.deriveStatus_controllerOf _ _ _⟩
-  rw [Pko.Lemmas.ObjectSet.condTrue_setCond_other _ _ _ (by simp), Pko.Lemmas.ObjectSet.deriveStatus_available]
-  cases failing <;> simp
+  refine ⟨?_, ?_, ?_⟩
+  · rw [Pko.Lemmas.ObjectSet.finishMem_noRemote _ _ (by simpa [deriveStatus] using hnr)]
+    simp only [hlife, ↓reduceIte]
+    exact Pko.Lemmas.ObjectSet.condTrue_setCond_true _ _ _ _ _
+  · rw [Pko.Lemmas.ObjectSet.finishMem_condTrue_other _ _ _ (by decide),
+      Pko.Lemmas.ObjectSet.deriveStatus_available]
+    cases failing <;> simp
+  · rw [(Pko.Lemmas.ObjectSet.finishMem_fields _ _).1]; rfl
 
 /-- Non-vacuity: a paused owner facing a missing object and a drifted object writes nothing and
 reports the missing one. -/
